@@ -237,6 +237,14 @@ func runC16(c *Ctx) {
 		mk("no content type", "", good, true, true, true),
 		mk("application/yaml", "application/yaml", good, true, true, true),
 		mk("application/xml", "application/xml", good, true, true, true),
+		// media types that merely begin with "application/json" are other formats (RFC 7464 JSON text sequences, RFC 9535, ...)
+		mk("application/json-seq", "application/json-seq", good, true, true, true),
+		mk("application/jsonpath", "application/jsonpath", good, true, true, true),
+		mk("application/json5", "application/json5", good, true, true, true),
+		mk("application/jsonlines", "application/jsonlines", good, true, true, true),
+		mk("application/json-patch+json", "application/json-patch+json", good, true, true, true),
+		mk("application/vnd.kubernetes.protobuf", "application/vnd.kubernetes.protobuf", good, true, true, true),
+		mk("application/x-www-form-urlencoded", "application/x-www-form-urlencoded", good, true, true, true),
 		mk("not json", "application/json", []byte("this is not json"), false, false, false),
 		mk("truncated json", "application/json", good[:len(good)/2], false, false, false),
 		mk("json array", "application/json", []byte("[]"), false, false, false),
